@@ -177,6 +177,18 @@ func (w *World) life(p *Proc) {
 	next := 0
 	code, signalled, by := sc.Exit, false, 0
 	emit := func(ch OutChunk) {
+		if ch.Stream == 0 {
+			// the command closes its own stdout and stderr and lives on (exec >/dev/null 2>&1)
+			if p.stdout != nil {
+				p.stdout.closeWriter()
+			}
+			if p.stderr != nil {
+				p.stderr.closeWriter()
+			}
+			p.stdout, p.stderr = nil, nil
+			simlog.Add(simlog.Event{Kind: "os.closeout", Subj: p.Token, Pid: p.Pid})
+			return
+		}
 		pp := p.stdout
 		if ch.Stream == 2 {
 			pp = p.stderr
